@@ -290,7 +290,7 @@ def run(chk):
     imag_copy_rule(chk, src)
     chk.rule("thermal-hamiltonian", "both thermal propagation paths and the energy bookkeeping use the Hamiltonian the job was given", 3)
     thermal_hamiltonian_rule(chk, src)
-    chk.rule("solver-sibling", "Krylov and ODE branch integrate the same exponent in imaginary time", 6)
+    chk.rule("solver-sibling", "abstract runs of the tangent-space schemes with both local solvers in imaginary time: call by call the same real exponent -tau/2 (-tau) H_k", 6)
     chk.rule("imag-normalise", "evolve(): complex (imaginary) step => state and prefactor normalised; real step => tensors only (abstract run of both dispatchers)", 8)
     chk.rule("purification", "MpDm.from_mps embeds the state diagonally; ancilla carries no quantum number; operator sites carry (q, -q); tree auxiliary space", 6)
     auxiliary_space_rule(chk, src)
@@ -346,23 +346,9 @@ def run(chk):
         chk.ob("thermal-siblings", f"{label}: applies exp(-tau (H - E_last)) to the previous state", ok, fi_.where, [(k, "previous state" if s_ else "another object", str(x)) for k, s_, x in got],
                f"exp({ex_want}) applied to the previous state", line=fi_.node.lineno,
                detail="the exact path (x = Im(dt) = -tau, shift = -E_last) and the general path (H - E_last evolved by dt = -i tau) must apply the same operator: the latest energy is the shift of both")
-    # ---- imaginary-time solver pairs (same engine as C09, imaginary rows only)
-    n = 0
-    for qual in ("Mps._evolve_tdvp_ps", "Mps._evolve_tdvp_ps2", "Mps._evolve_tdvp_mu_cmf"):
-        fi = src.func(MPS, qual)
-        ty = C09.Typer(src, fi)
-        for k, (kc, ic, ifn) in enumerate(C09.solver_pairs(fi)):
-            ek, ei = C09.prologue_env(fi, True, True), C09.prologue_env(fi, True, False)
-            tk, ti = ty.type_expr(kc.args[0]), ty.type_expr(ic.args[0])
-            if tk is None or ti is None:
-                raise AnalysisError(f"{fi.where}: solver operand cannot be typed")
-            exk = sp.simplify(C09.scalar_sym(kc.args[1], ek) * tk.factor.subs(C09.COEF, ek.get("coef", C09.COEF)))
-            span = ic.args[1]
-            exi = sp.simplify((C09.scalar_sym(span.elts[1], ei) - C09.scalar_sym(span.elts[0], ei)) * ti.factor.subs(C09.COEF, ei.get("coef", C09.COEF)))
-            tau_s = sp.Symbol("tau", positive=True)
-            real_decay = sp.im(exk) == 0
-            chk.ob("solver-sibling", f"{qual} pair#{k} [imaginary time]", sp.simplify(exk - exi) == 0 and real_decay, fi.where, {"krylov": str(exk), "ODE": str(exi)}, "equal, real exponents", line=kc.lineno,
-                   detail=f"{qual}: in imaginary time the two local solvers integrate different exponents")
+    # ---- imaginary-time solver pairs (same abstract runs as C09, imaginary rows only)
+    from .chain_rules import tdvp_solver_rule
+    tdvp_solver_rule(chk, src, "solver-sibling", None, imag_only=True)
     # ---- re-entrant evolution keeps the time mode
     chk.rule("imag-reentry", "an evolver that converts an imaginary step to a real number passes an imaginary step again when it re-enters evolve()", 1)
     n_re = 0
